@@ -436,7 +436,13 @@ func caseDnPub(o *vlib.Oracle, c *rec, cs Case) {
 	if ok {
 		want := refSer(refAdd(refMul(new(big.Int).SetBytes(s), refPt{refGx, refGy}), P))
 		if want == nil {
-			c.Hit("dnpub-sum-infinity") // gocoin serialises stale coordinates (documented observation)
+			// secret*G + P is the point at infinity: BaseMultiplyAdd reports false (fix for C08's api-basemultiplyadd-identity),
+			// DeriveNextPublic ignores that and returns the zero-filled buffer - no point, so nothing that reads as one
+			c.Hit("dnpub-sum-infinity")
+			if _, isPt := refParse(real); isPt {
+				c.PropFail("derive-next-public-infinity", "DeriveNextPublic returns the valid-looking key "+hx(real)+" although secret*G + P is the point at infinity", cs)
+				return
+			}
 		} else if !bytes.Equal(real, want) {
 			c.PropFail("derive-next-public", "DeriveNextPublic != secret*G + P", cs)
 		}
@@ -542,13 +548,39 @@ func caseWif(o *vlib.Oracle, c *rec, cs Case) {
 	compr := cs.A[2] == "1"
 	c.Eval("wif", strings.Join(cs.A, " "))
 	got := o.MustAsk("wifenc " + hx(key) + " " + cs.A[1] + " " + cs.A[2])
-	pa := btc.NewPrivateAddr(append([]byte{}, key...), byte(ver), compr)
+	var pa *btc.PrivateAddr
+	pan := ""
+	func() {
+		defer func() {
+			if x := recover(); x != nil {
+				pan = fmt.Sprint(x)
+			}
+		}()
+		pa = btc.NewPrivateAddr(append([]byte{}, key...), byte(ver), compr)
+	}()
+	if pan != "" {
+		// key = 0 mod n: key*G is the point at infinity, BaseMultiply reports false (fix for C08's api-basemultiply-identity),
+		// PublicFromPrivate returns nil and NewPrivateAddr panics "PublicFromPrivate error" - model: panic. Any other panic,
+		// or this one for a key that has a public key, is a failure.
+		c.Hit("wif-panic")
+		if refPub(key) != nil || !strings.Contains(pan, "PublicFromPrivate error") {
+			c.PropFail("panic-wif", "NewPrivateAddr panics on a private key that has a public key: "+pan, cs)
+		} else if got != "panic" {
+			c.TieFail("wif", "NewPrivateAddr panics ("+pan+"), model: "+got, cs)
+		} else {
+			c.Hit("wif-key-zero-mod-n-refused")
+			c.TieOK()
+		}
+		return
+	}
+	if refPub(key) == nil {
+		// the witness of C08's finding api-basemultiply-identity seen through btc: a "public key" for the scalar 0 / n
+		c.PropFail("wif-key-zero-mod-n-accepted", "NewPrivateAddr hands out the public key "+hx(pa.Pubkey)+" for a private key = 0 mod n (its public key is the point at infinity)", cs)
+		return
+	}
 	s := pa.String()
 	want := fmt.Sprintf("ok %s %s %s %d", hx([]byte(s)), hx(pa.Pubkey), hx(pa.Hash160[:]), pa.BtcAddr.Version)
-	if got == "outside" {
-		// key = 0 mod n: gocoin's public key there is stale coordinates (not modelled); string and round trip are judged below
-		c.Hit("outside-model")
-	} else if got != want {
+	if got != want {
 		c.TieFail("wif", "model WIF encoding differs: "+got+" vs "+want, cs)
 	} else {
 		c.TieOK()
@@ -561,9 +593,7 @@ func caseWif(o *vlib.Oracle, c *rec, cs Case) {
 	if s != refB58Check(pl) {
 		c.PropFail("wif-spec", "PrivateAddr.String is not Base58Check(ver||key||[01])", cs)
 	}
-	if rp := refPub(key); rp == nil {
-		c.Hit("wif-key-zero-mod-n")
-	} else if compr && !bytes.Equal(pa.Pubkey, rp) {
+	if rp := refPub(key); compr && !bytes.Equal(pa.Pubkey, rp) {
 		c.PropFail("pubkey-spec", "public key of a private key differs from the reference curve", cs)
 	}
 	back, err := btc.DecodePrivateAddr(s)
@@ -577,24 +607,31 @@ func caseWifDec(o *vlib.Oracle, c *rec, cs Case) {
 	s := string(unhx(cs.A[0]))
 	c.Eval("wif-decode", cs.A[0])
 	got := o.MustAsk("wifdec " + hx([]byte(s)))
-	outside := got == "outside" // accepted by the model, key = 0 mod n: only the public key is not modelled
-	if outside {
-		c.Hit("outside-model")
-	}
 	var pa *btc.PrivateAddr
 	var err error
-	pan := false
+	pan := ""
 	func() {
 		defer func() {
-			if recover() != nil {
-				pan = true
+			if x := recover(); x != nil {
+				pan = fmt.Sprint(x)
 			}
 		}()
 		pa, err = btc.DecodePrivateAddr(s)
 	}()
 	switch {
-	case pan:
-		c.TieFail("wifdec", "DecodePrivateAddr panics; model: "+got, cs)
+	case pan != "":
+		// a well-formed WIF string of a key = 0 mod n: NewPrivateAddr panics "PublicFromPrivate error" (BaseMultiply
+		// reports false at the point at infinity since the fix for C08's api-basemultiply-identity) - model: panic
+		c.Hit("wifdec-panic")
+		pl := refB58Decode(s)
+		if len(pl) < 33 || refPub(pl[1:33]) != nil || !strings.Contains(pan, "PublicFromPrivate error") {
+			c.PropFail("panic-wifdec", "DecodePrivateAddr panics on a string whose key has a public key: "+pan, cs)
+		} else if got != "panic" {
+			c.TieFail("wifdec", "DecodePrivateAddr panics ("+pan+"); model: "+got, cs)
+		} else {
+			c.Hit("wifdec-key-zero-mod-n-refused")
+			c.TieOK()
+		}
 	case err != nil:
 		cls := "b58"
 		switch {
@@ -629,10 +666,8 @@ func caseWifDec(o *vlib.Oracle, c *rec, cs Case) {
 			return
 		}
 		want := fmt.Sprintf("ok %s %d %s %s %d", hx(pa.Key), pa.Version, hx(pa.Pubkey), hx(pa.Hash160[:]), pa.BtcAddr.Version)
-		if outside {
-			if pl := refB58Decode(s); len(pl) < 33 || !bytes.Equal(pa.Key, pl[1:33]) || refPub(pa.Key) != nil {
-				c.TieFail("wifdec", "model calls the key 0 mod n, the real code decodes "+hx(pa.Key), cs)
-			}
+		if refPub(pa.Key) == nil {
+			c.PropFail("wif-key-zero-mod-n-accepted", "DecodePrivateAddr imports a private key = 0 mod n with the public key "+hx(pa.Pubkey)+" (its public key is the point at infinity)", cs)
 			return
 		}
 		if got != want {
